@@ -11,7 +11,8 @@
      OLock   lock(); critical section; unlock        OTry   try_lock() (+cs, unlock if Some)
      OAsync  block_on(lock_async()) (+cs, unlock)    OPoll  create the lock future if the thread
      has none and poll it once with a non-blocking (counting) waker (+cs, unlock if Ready)
-     ODropFut drop the pending future.
+     ODropFut drop the pending future.              OWait  while it owns a pending future: >= 1
+     steps `unpark(self)` (the harness waits, with yield points, until the future's waker fired).
    A thread that starts OLock/OAsync while it owns a pending future drops the future first,
    and a pending future is dropped at the end of the program (Rust scoping).
    The critical section is >= 1 steps `unpark(self)` (the harness' yield point; it leaves a
@@ -39,7 +40,7 @@ Inductive mev :=
 | EvYield
 | EvSpin.
 
-Inductive op := OLock | OTry | OAsync | OPoll | ODropFut.
+Inductive op := OLock | OTry | OAsync | OPoll | ODropFut | OWait.
 Inductive res := RL | RT (got : bool) | RA | RP (ready : bool).
 Inductive mch := ChGo | ChAgain.
 
@@ -66,7 +67,8 @@ Inductive pc :=
 | XFix (q : qctx) | XUnl (q : qctx)
 | CS | UFand
 | WMark | WUnl (w : option (wk * nat)) | WWake (h : nat)
-| DFix | DUnl | DLoad.
+| DFix | DUnl | DLoad
+| WaitW.
 
 Record mstate := mkS {
   locked : bool;                 (* LOCKED bit of the `state` word *)
@@ -175,8 +177,16 @@ Definition do_llswap s t (l : lctx) : option (mstate * mev) :=
   | Some _ => ret s t (LLLoad l) (EvSwap VLocked o_ll_swap 1 1)
   end.
 
+(* OWait: one `unpark(self)` yield point of the harness' wait-until-woken loop *)
+Definition do_wait s t (c : mch) : option (mstate * mev) :=
+  let s1 := set_token s t true in
+  match c with
+  | ChAgain => ret s1 t WaitW (EvUnpark t)
+  | ChGo => ret s1 t Idle (EvUnpark t)
+  end.
+
 (* start of the next API call (ops without events are skipped) *)
-Fixpoint dispatch s t (p : list op) : option (mstate * mev) :=
+Fixpoint dispatch s t (c : mch) (p : list op) : option (mstate * mev) :=
   match p with
   | [] => match fut s t with Some _ => do_llswap (set_prog s t []) t LDrop | None => None end
   | OLock :: r =>
@@ -198,7 +208,12 @@ Fixpoint dispatch s t (p : list op) : option (mstate * mev) :=
   | ODropFut :: r =>
       match fut s t with
       | Some _ => do_llswap (set_prog s t r) t LDrop
-      | None => dispatch s t r
+      | None => dispatch s t c r
+      end
+  | OWait :: r =>
+      match fut s t with
+      | Some _ => do_wait (set_prog s t r) t c
+      | None => dispatch s t c r
       end
   end.
 
@@ -208,7 +223,8 @@ Definition block_next s t : mstate :=
 
 Definition mstep (s : mstate) (t : nat) (c : mch) : option (mstate * mev) :=
   match pcs s t with
-  | Idle => dispatch s t (prog s t)
+  | Idle => dispatch s t c (prog s t)
+  | WaitW => do_wait s t c
   | TALoad a => do_taload s t a
   | TACas a sq =>
       let ok := andb (negb (locked s)) (Bool.eqb (hasq s) sq) in
